@@ -747,7 +747,11 @@ class Constraints:
                         if {arg, _t} in TYPE_EXACT_TOLERANCE:
                             resolved = True
                             break
-                        if issubclass(arg, _t):
+                        if isinstance(arg, ForwardRef):
+                            # a pending reference (Optional['Num']): decided once it is resolved
+                            resolved = True
+                            break
+                        if isinstance(arg, type) and issubclass(arg, _t):
                             resolved = True
                             break
                     if not resolved:
